@@ -71,3 +71,84 @@ def run(ctx, r, attempts, depth=3, key='grammar-mismatch'):
     if cs:
         r.sample({'proved_grammar_document': cs[len(cs) // 2][0][:120], 'treeD': cs[len(cs) // 2][1][:200]})
     return len(cs)
+
+
+# ----------------------------------------------------------------------------- certificates
+# For a concrete source the model driver (request `cert`) tokenizes and parses it, rebuilds a candidate
+# document of the proved grammar from tokens + tree (an untrusted search, TexSoupModel/GrammarRecognize.lean)
+# and EVALUATES the decidable hypotheses of the completeness theorems on it with the compiled verified
+# definitions.  `toks && wf` are the hypotheses of theorem C02.cert_sound (parse s = treeD d, both modes);
+# `sep && pos` say the document's tokens are a tokenizer output with running offsets (C02.document_parses);
+# `canon && adj` (implied by `plain && adj`) add C01G.cert_sound / C01G.document_roundtrip.
+
+CERT_CORE = ('wf', 'toks', 'sep', 'pos')
+
+
+def cert_req(s, tol=0, skip=()):
+    return 'cert %d %s %s' % (tol, ','.join(common.enc(x) for x in skip) if skip else '_', common.enc(s))
+
+
+def parse_cert(line):
+    """dict of flags for `CERT ok ...`, else the line itself (`CERT none <reason>` / `ERR ...`)."""
+    if line.startswith('CERT ok '):
+        return dict((k, v == '1') for k, v in (kv.split('=') for kv in line[8:].split()))
+    return line
+
+
+def classify(line):
+    """-> (status, detail): 'certified' | 'certified-c01' | 'contradiction' | 'uncertified:<reason>'."""
+    c = parse_cert(line)
+    if not isinstance(c, dict):
+        return 'uncertified:' + (c[10:] if c.startswith('CERT none ') else c), c
+    if all(c[k] for k in CERT_CORE):
+        if not c['tree']:
+            return 'contradiction', c
+        return ('certified-c01' if c['adj'] and c['plain'] else 'certified'), c
+    return 'uncertified:not-' + '-'.join(k for k in CERT_CORE if not c[k]), c
+
+
+def certify(srcs, skip=(), tol=0):
+    """Certificates for a batch of sources (one skip tuple for all, or a list with one per source)."""
+    srcs = list(srcs)
+    skips = skip if (isinstance(skip, list) and len(skip) == len(srcs)) else [tuple(skip)] * len(srcs)
+    lines = common.model_batch_parallel([cert_req(s, tol, k) for s, k in zip(srcs, skips)])
+    return [classify(l) + (l,) for l in lines]
+
+
+def tally(counter, status, prefix='cert'):
+    """Count one classified certificate into a Counter / dict."""
+    counter[prefix + '_documents'] = counter.get(prefix + '_documents', 0) + 1
+    if status in ('certified', 'certified-c01'):
+        counter[prefix + '_certified'] = counter.get(prefix + '_certified', 0) + 1
+        if status == 'certified-c01':
+            counter[prefix + '_certified_adjacent_plain'] = counter.get(prefix + '_certified_adjacent_plain', 0) + 1
+    else:
+        counter[prefix + '_' + status] = counter.get(prefix + '_' + status, 0) + 1
+
+
+def contradiction(src, skip, line):
+    return {'key': 'certificate-contradiction',
+            'what': 'the hypotheses of theorem document_parses evaluate to true on the recognised document but '
+                    'treeD d differs from the model\'s parse', 'input': src, 'skip': list(skip), 'certificate': line}
+
+
+def run_corpus(r, docs, prefix='cert_corpus'):
+    """Certify the corpus documents; statistics and contradictions into Result r.  Returns (certified, total)."""
+    res = certify(docs)
+    n = 0
+    for d, (status, c, line) in zip(docs, res):
+        tally(r.stats, status, prefix)
+        if status == 'contradiction':
+            r.failures.append(contradiction(d, (), line))
+        if status.startswith('certified'):
+            n += 1
+            if n == 3:
+                r.sample({'certified_corpus_document': d[:160], 'certificate': line})
+    return n, len(docs)
+
+
+def cert_sentence(stats, gen_prefix='cert', corpus_prefix='cert_corpus'):
+    return ('%d of %d generated documents and %d of %d corpus documents were certified as instances of the proved '
+            'grammar in this run (hypotheses evaluated by the compiled definitions)'
+            % (stats.get(gen_prefix + '_certified', 0), stats.get(gen_prefix + '_documents', 0),
+               stats.get(corpus_prefix + '_certified', 0), stats.get(corpus_prefix + '_documents', 0)))
